@@ -19,13 +19,13 @@ def step (line : String) : String :=
   | some out => out
   | none => bad
 
-/-- L2 lines carry state (the current module): `l2mod <module-sexp>` selects it,
-    `@Type <op> ...` runs an L2 op on one of its types. -/
 /-- L2 sub-handlers (one per transfer syntax) -/
 def l2handlers : List Driver.Ops.L2.SubHandler := [
   Driver.Ops.L2.derHandler
 ]
 
+/-- L2 lines carry state (the current module): `l2mod <module-sexp>` selects it,
+    `@Type <op> ...` runs an L2 op on one of its types. -/
 def stepL2 (st : Option Asn1c.L2.ModCtx) (toks : List String) : Option (Option Asn1c.L2.ModCtx × String) :=
   match toks with
   | "l2mod" :: ws =>
